@@ -159,6 +159,9 @@ def check_union(members, none_pos, spelling, col, inputs_u=UNMARSHAL_INPUTS, inp
             nontriv = (idx not in (0, None)) or (none_pos is not None and none_pos != len(members)) or bool(rej - {"ValueError", "TypeError"})
             if nontriv:
                 col.nt(f"{expr}|{direction}|{src}")
+                if idx not in (0, None) and len(col.samples) < core.MAX_SAMPLES and (col.evaluations % 97 == 0):
+                    col.sample({"union": expr, "direction": direction, "input": src, "first_acceptor": members[idx],
+                                "earlier_members_rejected_with": sorted(rej)})
             if idx not in (0, None):
                 col.label("first-acceptor:later-member")
             if rej - {"ValueError", "TypeError"}:
